@@ -66,7 +66,9 @@ Definition xchacha20poly1305_open (key nonce24 aad ct : list N) : option (list N
 
 Theorem xchacha20poly1305_open_seal (k n a p : list N) :
   xchacha20poly1305_open k n a (xchacha20poly1305_seal k n a p) = Some p.
-Proof. apply chacha20poly1305_open_seal. Qed.
+Proof.
+  unfold xchacha20poly1305_open, xchacha20poly1305_seal. apply chacha20poly1305_open_seal.
+Qed.
 
 (* Non-vacuity / sanity: the sealed text is 16 bytes longer than the plaintext. *)
 Lemma chacha20poly1305_seal_length k n a p :
